@@ -55,8 +55,10 @@ Section PartSet.
     split; [exact T1|]. cbn [p_total p_index fst snd]. split; [reflexivity|]. split; [lia|].
     unfold verify. cbn [p_leaf p_index p_total p_aunts fst snd].
     rewrite bytes_eqb_refl. cbn [negb].
-    rewrite !to_int_small by (rewrite ?N.add_0_l, ?nat_N_Z; lia).
-    unfold compute_from_aunts. rewrite N.add_0_l, !nat_N_Z, Hc, T1, bytes_eqb_refl. reflexivity.
+    change (N.pos (Pos.of_succ_nat (length l))) with (N.of_nat (length items)) in *.
+    rewrite (to_int_small (N.of_nat (length items))) by (rewrite nat_N_Z; lia).
+    rewrite (to_int_small (N.of_nat i)) by (rewrite nat_N_Z; lia).
+    unfold compute_from_aunts. rewrite !nat_N_Z, Hc, T1, bytes_eqb_refl. reflexivity.
   Qed.
 
   Hypothesis H_len : forall x, length (H x) = 32.
@@ -86,7 +88,7 @@ Section PartSet.
     - rewrite to_int_small in Eh by exact Hsm.
       assert (Hll : length (p_leaf p) = 32) by (rewrite El; apply H_len).
       destruct (compute_sound H H_len items _ _ _ Hne Hll Eh) as [C|[_ [x' [Hn Hx']]]]; [right; exact C|].
-      rewrite Z_N_nat in Hn.
+      replace (Z.to_nat (Z.of_N (p_index p))) with (N.to_nat (p_index p)) in Hn by lia.
       rewrite El in Hx'. destruct (leaf_hash_inj H x x' Hx') as [E|C]; [left; congruence|right; exact C].
     - exfalso. rewrite compute_rev_neg in Eh; [discriminate|].
       apply to_int_big. unfold two64. unfold two63 in *. lia.
@@ -94,14 +96,13 @@ Section PartSet.
 
   (* ---------------------------------------------------------------- chunks *)
 
-  Lemma firstn_slice_app (d : bytes) a b : a <= b -> firstn a d ++ slice a b d = firstn b d.
+  Lemma firstn_slice_app (d : bytes) : forall a b, a <= b -> firstn a d ++ slice a b d = firstn b d.
   Proof.
-    intros Hab. unfold slice.
-    rewrite <- (firstn_skipn a d) at 3.
-    rewrite firstn_app, firstn_length.
-    destruct (le_lt_dec a (length d)) as [Hl|Hl].
-    - rewrite Nat.min_l by lia. rewrite firstn_firstn, Nat.min_r by lia. reflexivity.
-    - rewrite !firstn_all2 by lia. rewrite skipn_all2 by lia. rewrite !firstn_nil. reflexivity.
+    unfold slice. induction d as [|x d IH]; intros a b Hab.
+    - rewrite skipn_nil, !firstn_nil. reflexivity.
+    - destruct a as [|a].
+      + simpl. rewrite Nat.sub_0_r. reflexivity.
+      + destruct b as [|b]; [lia|]. simpl. f_equal. apply IH. lia.
   Qed.
 
   Lemma concat_chunks_prefix (d : bytes) (psz : N) : (psz <> 0)%N -> forall k,
@@ -110,7 +111,7 @@ Section PartSet.
     = firstn (N.to_nat (N.min (N.of_nat (length d)) (N.of_nat k * psz))) d.
   Proof.
     intros Hp. induction k as [|k IH].
-    - simpl. reflexivity.
+    - cbn [seq map concat]. change (N.of_nat 0 * psz)%N with 0%N. rewrite N.min_0_r. reflexivity.
     - rewrite seq_S, map_app, concat_app, IH. cbn [map concat seq plus]. rewrite app_nil_r.
       set (len := N.of_nat (length d)).
       destruct (N.le_gt_cases (N.of_nat k * psz) len) as [Hle|Hgt].
@@ -135,6 +136,18 @@ Section PartSet.
   Lemma chunks_length d psz : length (chunks_of d psz) = N.to_nat ((N.of_nat (length d) + psz - 1) / psz).
   Proof. unfold chunks_of. cbv zeta. rewrite map_length, seq_length. reflexivity. Qed.
 
+  Lemma number_proofs_length t : forall ts j, length (number_proofs t j ts) = length ts.
+  Proof. induction ts; intros; simpl; auto. Qed.
+
+  Lemma proofs_from_spec items r prs : proofs_from H items = Some (r, prs) ->
+    items <> [] /\ r = root items /\ length prs = length items.
+  Proof.
+    intros Ep. unfold proofs_from in Ep. destruct items as [|c cs]; [discriminate|].
+    cbv beta iota in Ep. set (items := c :: cs) in *. inversion Ep as [[E1 E2]].
+    destruct (trails_spec H items) as [T1 [T2 _]].
+    split; [discriminate|]. split; [exact T1|]. rewrite number_proofs_length. exact T2.
+  Qed.
+
   (* ---------------------------------------------------------------- the setting *)
 
   Variable data : bytes.
@@ -146,7 +159,9 @@ Section PartSet.
   Let n := length chunks.
 
   Lemma bytes_to_hash_32 b : length b = 32 -> bytes_to_hash b = b.
-  Proof. intros Hl. unfold bytes_to_hash. rewrite Hl. reflexivity. Qed.
+  Proof.
+    intros Hl. unfold bytes_to_hash. rewrite Hl. rewrite Nat.sub_diag. cbn [skipn]. rewrite Hl, Nat.sub_diag. reflexivity.
+  Qed.
 
   Lemma full_facts :
     psz <> 0%N /\ chunks <> [] /\ (Z.of_nat n < two63)%Z /\
@@ -159,12 +174,7 @@ Section PartSet.
     destruct (N.leb_spec two32 (N.of_nat (length data) + psz - 1)) as [|Hlt]; [discriminate|].
     fold chunks in Hfull.
     destruct (proofs_from H chunks) as [[r prs]|] eqn:Ep; [|discriminate].
-    assert (Hne : chunks <> []) by (intros E; rewrite E in Ep; discriminate).
-    assert (Hr : r = root chunks /\ length prs = n).
-    { unfold proofs_from in Ep. destruct chunks as [|c cs] eqn:Ec; [congruence|]. rewrite <- Ec in *.
-      inversion Ep as [[E1 E2]]. destruct (trails_spec H chunks) as [T1 [T2 _]]. split; [exact T1|].
-      clear. generalize (N.of_nat (length chunks)) 0%N. unfold n.
-      rewrite <- T2. induction (fst (trails H chunks)); simpl; intros; auto. }
+    destruct (proofs_from_spec _ _ _ Ep) as [Hne Hr].
     destruct Hr as [Hr Hpl]. subst r.
     inversion Hfull as [Ef]. cbn [ps_total ps_hash ps_count ps_parts].
     assert (Hn : N.of_nat n = ((N.of_nat (length data) + psz - 1) / psz)%N).
@@ -212,9 +222,8 @@ Section PartSet.
     unfold genuine in Hg. rewrite Hparts in Hg.
     destruct (in_mk_parts _ _ _ _ Hg) as [i [Hc [Hpr Hidx]]].
     destruct (merkle_complete_lemma chunks _ _ i _ _ Hn63 Hp Hc Hpr) as [_ [Ht [Hi Hv]]].
-    exists i. repeat split; auto.
-    - apply nth_error_Some. congruence.
-    - lia.
+    exists i. split; [unfold n; apply nth_error_Some; congruence|].
+    split; [exact Hc|]. split; [lia|]. split; [exact Hi|]. split; [exact Ht|exact Hv].
   Qed.
 
   Lemma genuine_exists i : i < n -> exists g, genuine g /\ pt_index g = N.of_nat i.
@@ -280,11 +289,13 @@ Section PartSet.
     - rewrite count_some_repeat. reflexivity.
   Qed.
 
+  Lemma slot_ok_repeat (cs : list bytes) : Forall2 slot_ok (repeat None (length cs)) cs.
+  Proof. induction cs; simpl; constructor; simpl; auto. Qed.
+
   Lemma InvC_s0 : InvC s0.
   Proof.
     destruct full_facts as [_ [_ [_ [Ht _]]]].
-    unfold InvC, s0, from_header. cbn [ps_parts]. rewrite Ht, Nat2N.id. unfold n.
-    induction chunks; simpl; constructor; simpl; auto.
+    unfold InvC, s0, from_header. cbn [ps_parts]. rewrite Ht, Nat2N.id. unfold n. apply slot_ok_repeat.
   Qed.
 
   (** a refused part leaves the set exactly as it was *)
